@@ -6,8 +6,11 @@ The body lines of a field (`fieldBody f pfx ek`) address the type's block throug
 `[]` for a directly typed property (the type block is in the scope, behind blocks that do not know the
 names used), `[items, KIND]` / `[itemSchema, KIND]` for the item type of an array / a map (every line
 first walks the prefix, through containers that exist already, to the singleton scope of the type block).
-`BodyReach` abstracts both: where the first name of a line is looked up, and how the type's message `Y`
-sits in the state below the address `a` of the statement (`C Y`, at `a ++ b`).
+`BodyReach` abstracts both: where the first name of a line is looked up, and how the block's message sits
+in the state below the address `a` of the statement (`C o`, at `a ++ b`). The message may not exist yet
+(`o = none`): a container such as `rules`, `ref`, `listRules.filtering` is CREATED by the first line that
+walks into it — `BodyReach.child` extends a reach into such a lazy child, `BodyReach.child_touched` into a
+child that exists already.
 -/
 namespace J5V.Walker
 open J5V.Bcl
@@ -46,15 +49,17 @@ theorem walkScope_append_exact {env : Env} {sc s1 r : Scope} {l1 l2 : List PathE
   dsimp only
   rw [h2 _ (Node.get?_set_self' hS X1), Node.set_set]
 
-/-- how the lines of a field body (prefix `pfx`) reach the type block `tcf` at `a ++ b`; `C Y` is the state
-below `a` when the type's message is `Y`; `names`: the first names of the lines -/
-structure BodyReach (sc : Scope) (pfx : List Str) (tcf : ContainerField) (a b : Addr) (C : Node → Node)
-    (names : List Str) : Prop where
-  get : ∀ Y, (C Y).get? b = some Y
-  set : ∀ Y Y', (C Y).set b Y' = C Y'
-  ascii : ∀ s ∈ pfx, isAscii s = true
-  first : ∃ sc' : Scope, (∀ Y, Exact (walkScope j5Env sc (pfx.map pathElem)) a (C Y) sc' (C Y)) ∧
-    ∀ n ∈ names, findBlock n sc'.blockSet = findBlock n [tcf]
+/-- how the lines `pfx.NAME… = …` reach the block of schema `s` at `a ++ b`. `C o` is the state below `a`
+when the block's message is `o` (`none`: not created yet). Walking the prefix creates the message if it
+has to (`o.getD (freshMsg s)`). `P`: the first names of the lines. -/
+structure BodyReach (sc : Scope) (pfx : List Str) (s : Schema) (spec : BlockSpec) (a b : Addr)
+    (C : Option Node → Node) (P : Str → Prop) : Prop where
+  ascii : ∀ x ∈ pfx, isAscii x = true
+  get : ∀ Y, (C (some Y)).get? b = some Y
+  set : ∀ Y Y', (C (some Y)).set b Y' = C (some Y')
+  walk : ∃ sc' : Scope,
+    (∀ o, Exact (walkScope j5Env sc (pfx.map pathElem)) a (C o) sc' (C (some (o.getD (freshMsg s))))) ∧
+    ∀ n, P n → findBlock n sc'.blockSet = findBlock n [cfOf s spec (a ++ b)]
 
 theorem findBlock_cons_of_isSome {n : Str} {b : ContainerField} {rest : List ContainerField}
     (h : (findBlock n [b]).isSome = true) : findBlock n (b :: rest) = findBlock n [b] := by
@@ -71,17 +76,17 @@ theorem findBlock_cons_of_isSome {n : Str} {b : ContainerField} {rest : List Con
       cases h
 
 /-- the directly typed property: the type block is in the scope, behind blocks that miss the names -/
-theorem BodyReach.direct {sc : Scope} {tcf : ContainerField} {outer tail : List ContainerField} {d : Addr}
-    {names : List Str}
-    (hbs : sc.blockSet = outer ++ tcf :: tail)
+theorem BodyReach.direct {sc : Scope} {s : Schema} {spec : BlockSpec} {outer tail : List ContainerField}
+    {d : Addr} {names : List Str}
+    (hbs : sc.blockSet = outer ++ cfOf s spec d :: tail)
     (hmiss : ∀ n ∈ names, ∀ o ∈ outer, Misses o n)
-    (hfound : ∀ n ∈ names, (findBlock n [tcf]).isSome = true) :
-    BodyReach sc [] tcf d [] id names where
+    (hfound : ∀ n ∈ names, (findBlock n [cfOf s spec d]).isSome = true) :
+    BodyReach sc [] s spec d [] (fun o => o.getD (freshMsg s)) (· ∈ names) where
+  ascii := by simp
   get := fun Y => Node.get?_nil Y
   set := fun Y Y' => Node.set_nil Y Y'
-  ascii := by simp
-  first := ⟨sc, fun Y => walkScope_nil _ _ _, fun n hn => by
-    rw [hbs, findBlock_skip_all (hmiss n hn), findBlock_cons_of_isSome (hfound n hn)]⟩
+  walk := ⟨sc, fun o => walkScope_nil _ _ _, fun n hn => by
+    rw [List.append_nil, hbs, findBlock_skip_all (hmiss n hn), findBlock_cons_of_isSome (hfound n hn)]⟩
 
 theorem combinePath_refOf_concat {pfx : List Str} (hpfx : ∀ s ∈ pfx, isAscii s = true) {n : Str}
     (hn : isAscii n = true) :
@@ -95,150 +100,234 @@ theorem combinePath_refOf_concat {pfx : List Str} (hpfx : ∀ s ∈ pfx, isAscii
     · exact hn
 
 section
-variable {sc : Scope} {pfx : List Str} {sT : Schema} {specT : BlockSpec} {a b : Addr} {C : Node → Node}
-  {names : List Str}
+variable {sc : Scope} {pfx : List Str} {s : Schema} {spec : BlockSpec} {a b : Addr} {C : Option Node → Node}
+  {P : Str → Prop}
+
+/-- a reach serves fewer names as well -/
+theorem BodyReach.mono (hr : BodyReach sc pfx s spec a b C P) {Q : Str → Prop} (h : ∀ n, Q n → P n) :
+    BodyReach sc pfx s spec a b C Q where
+  ascii := hr.ascii
+  get := hr.get
+  set := hr.set
+  walk := by
+    obtain ⟨sc', hwalk, hfind⟩ := hr.walk
+    exact ⟨sc', hwalk, fun n hn => hfind n (h n hn)⟩
 
 /-- a line `pfx.n = val` that sets the scalar property `final` (`n` is `final` or an alias of length one
-of the type block), not touched yet -/
-theorem BodyReach.attr (hr : BodyReach sc pfx (cfOf sT specT (a ++ b)) a b C names) {n final : Str}
-    (hn : n ∈ names) (hna : isAscii n = true)
-    (hfb : findBlock n [cfOf sT specT (a ++ b)] = some (cfOf sT specT (a ++ b), [final]))
+of the block), not touched yet -/
+theorem BodyReach.attr (hr : BodyReach sc pfx s spec a b C P) (o : Option Node) {t : List Bool} {vs : List Node}
+    (hM : o.getD (freshMsg s) = .msg t vs) {n final : Str} (hn : P n) (hna : isAscii n = true)
+    (hfb : findBlock n [cfOf s spec (a ++ b)] = some (cfOf s spec (a ++ b), [final]))
     {i : Nat} {og : Option (Str × List Nat)} {ty : FieldType} {pres : Bool}
-    (hpi : propInfo j5Env sT final = some (i, og, .scalar ty pres))
-    {t : List Bool} {vs : List Node} {cur : Node}
-    (ht : t[i]? = some false) (hv : vs[i]? = some cur) (hconf : NoConflict og vs)
+    (hpi : propInfo j5Env s final = some (i, og, .scalar ty pres))
+    {cur : Node} (ht : t[i]? = some false) (hv : vs[i]? = some cur) (hconf : NoConflict og vs)
     {val : Value} {v : Scalar}
     (hva : (AV.value val).asArray = none) (hsc : scalarFromAST j5Env ty (.value val) = .ok v) :
-    Exact (doStatement j5Env sc (assignStmt (pfx ++ [n]) val)) a (C (.msg t vs)) ()
-      (C (.msg (t.set i true) (vs.set i (storeNode pres v)))) := by
-  obtain ⟨sc', hwalk, hfind⟩ := hr.first
+    Exact (doStatement j5Env sc (assignStmt (pfx ++ [n]) val)) a (C o) ()
+      (C (some (.msg (t.set i true) (vs.set i (storeNode pres v))))) := by
+  obtain ⟨sc', hwalk, hfind⟩ := hr.walk
   refine doStatement_assign ?_
-  have h := setAttr_walk (combinePath_refOf_concat hr.ascii hna) (hwalk _)
+  have hw := hwalk o
+  rw [hM] at hw
+  have h := setAttr_walk (combinePath_refOf_concat hr.ascii hna) hw
     (by rw [hfind n hn]; exact hfb) hpi (hr.get _) ht hv hconf hva hsc
   rw [hr.set] at h
   exact h
 
-/-- the lines `pfx.rules.NAME = LIT` of a field whose type message `.msg t vs` has the `rules` slot `ri`
+/-- a line `pfx.n = ["x", …]` into an array-of-strings property, not touched yet -/
+theorem BodyReach.attr_strs (hr : BodyReach sc pfx s spec a b C P) (o : Option Node) {t : List Bool}
+    {vs : List Node} (hM : o.getD (freshMsg s) = .msg t vs) {n final : Str} (hn : P n) (hna : isAscii n = true)
+    (hfb : findBlock n [cfOf s spec (a ++ b)] = some (cfOf s spec (a ++ b), [final]))
+    {i : Nat} {og : Option (Str × List Nat)}
+    (hpi : propInfo j5Env s final = some (i, og, .arrayOfScalar (.scalar .string)))
+    (ht : t[i]? = some false) (hv : vs[i]? = some .absent) (hconf : NoConflict og vs)
+    {x : Str} {xs : List Str} (hok : (x :: xs).all okString = true) :
+    Exact (doStatement j5Env sc (assignStmt (pfx ++ [n]) (strsValue (x :: xs)))) a (C o) ()
+      (C (some (.msg (t.set i true) (vs.set i (.list ((x :: xs).map fun s => .scalar (.str s))))))) := by
+  obtain ⟨sc', hwalk, hfind⟩ := hr.walk
+  refine doStatement_assign ?_
+  have hw := hwalk o
+  rw [hM] at hw
+  have h := setAttr_walk_strs (combinePath_refOf_concat hr.ascii hna) hw
+    (by rw [hfind n hn]; exact hfb) hpi (hr.get _) ht hv hconf hok
+  rw [hr.set] at h
+  exact h
+
+/-- reach extended into a container-typed property `pn` (slot `i`) that does NOT exist yet in the block's
+current message `.msg tp vsp`: the first line that walks `pfx.n` creates it -/
+theorem BodyReach.child (hr : BodyReach sc pfx s spec a b C P) (op : Option Node) {tp : List Bool}
+    {vsp : List Node} (hM : op.getD (freshMsg s) = .msg tp vsp) {n pn : Str} (hn : P n)
+    (hna : isAscii n = true)
+    (hfb : findBlock n [cfOf s spec (a ++ b)] = some (cfOf s spec (a ++ b), [pn]))
+    {i : Nat} {og : Option (Str × List Nat)} {s' : Schema} {spec' : BlockSpec}
+    (hpi : propInfo j5Env s pn = some (i, og, .container s'))
+    (hspec : ∀ c, specOf j5Env ⟨c, .msg s'⟩ = .ok spec')
+    (ht : tp[i]? = some false) (hv : vsp[i]? = some .absent) (hconf : NoConflictAt s i og vsp) :
+    BodyReach sc (pfx ++ [n]) s' spec' a (b ++ [i])
+      (fun o' => C (match o' with
+        | none => op
+        | some Y => some (.msg (tp.set i true) (vsp.set i Y)))) (fun _ => True) where
+  ascii := by
+    intro x hx
+    simp only [List.mem_append, List.mem_singleton] at hx
+    rcases hx with hx | rfl
+    · exact hr.ascii x hx
+    · exact hna
+  get := fun Y => by
+    have hlt : i < vsp.length := (List.getElem?_eq_some_iff.mp hv).1
+    show (C (some _)).get? (b ++ [i]) = some Y
+    rw [Node.get?_append, hr.get, Option.bind_some]
+    exact Node.get?_msg_single _ _ _ _ (by rw [List.getElem?_set_self hlt])
+  set := fun Y Y' => by
+    have hlt : i < vsp.length := (List.getElem?_eq_some_iff.mp hv).1
+    show (C (some _)).set (b ++ [i]) Y' = C (some _)
+    rw [Node.set_append (hr.get _), hr.set,
+      Node.set_msg_single _ _ _ Y _ (by rw [List.getElem?_set_self hlt]), List.set_set]
+  walk := by
+    obtain ⟨sc', hwalk, hfind⟩ := hr.walk
+    have hlt : i < vsp.length := (List.getElem?_eq_some_iff.mp hv).1
+    have hltt : i < tp.length := (List.getElem?_eq_some_iff.mp ht).1
+    refine ⟨Scope.newChild (cfOf s' spec' (a ++ (b ++ [i]))), ?_, fun _ _ => rfl⟩
+    intro o'
+    rw [List.map_append]
+    cases o' with
+    | none =>
+      -- the prefix, then the child is built
+      have hw := hwalk op
+      rw [hM] at hw
+      refine walkScope_append_exact hw (walkScope_cons ?_ (walkScope_nil _ _ _))
+      have hps := (propSetValue_build' (c := a ++ b) false hpi ht hv hconf).lift (hr.get _)
+      rw [hr.set] at hps
+      have hc := childBlock_of_walkPath (n := n) (sc := sc') (by rw [hfind _ hn]; exact hfb)
+        (walkPath_container (propInfo_hasProperty hpi) hps (walkRest_nil _ _ _))
+        (setSpecs_cons (hspec _) (setSpecs_nil _))
+      rw [List.append_assoc] at hc
+      exact hc
+    | some Y =>
+      have hw := hwalk (some (.msg (tp.set i true) (vsp.set i Y)))
+      refine walkScope_append_exact hw (walkScope_cons ?_ (walkScope_nil _ _ _))
+      have hps := (propSetValue_cached (c := a ++ b) (vs := vsp.set i Y) hpi
+        (show (tp.set i true)[i]? = some true by rw [List.getElem?_set_self hltt])).lift (hr.get _)
+      rw [hr.set] at hps
+      have hc := childBlock_of_walkPath (n := n) (sc := sc') (by rw [hfind _ hn]; exact hfb)
+        (walkPath_container (propInfo_hasProperty hpi) hps (walkRest_nil _ _ _))
+        (setSpecs_cons (hspec _) (setSpecs_nil _))
+      rw [List.append_assoc] at hc
+      exact hc
+
+/-- reach extended into a container-typed property `pn` (slot `i`) that EXISTS in the block's current
+message (a qualifier created it): every line takes the cached wrapper; `C'` replaces its content -/
+theorem BodyReach.child_touched (hr : BodyReach sc pfx s spec a b C P) (tp : List Bool) (vsp : List Node)
+    {n pn : Str} (hn : P n) (hna : isAscii n = true)
+    (hfb : findBlock n [cfOf s spec (a ++ b)] = some (cfOf s spec (a ++ b), [pn]))
+    {i : Nat} {og : Option (Str × List Nat)} {s' : Schema} {spec' : BlockSpec}
+    (hpi : propInfo j5Env s pn = some (i, og, .container s'))
+    (hspec : ∀ c, specOf j5Env ⟨c, .msg s'⟩ = .ok spec')
+    (ht : tp[i]? = some true) (hlt : i < vsp.length) :
+    BodyReach sc (pfx ++ [n]) s' spec' a (b ++ [i])
+      (fun o' => C (some (.msg tp (vsp.set i (o'.getD (freshMsg s')))))) (fun _ => True) where
+  ascii := by
+    intro x hx
+    simp only [List.mem_append, List.mem_singleton] at hx
+    rcases hx with hx | rfl
+    · exact hr.ascii x hx
+    · exact hna
+  get := fun Y => by
+    show (C (some _)).get? (b ++ [i]) = some Y
+    rw [Node.get?_append, hr.get, Option.bind_some]
+    exact Node.get?_msg_single _ _ _ _ (by rw [List.getElem?_set_self hlt]; rfl)
+  set := fun Y Y' => by
+    show (C (some _)).set (b ++ [i]) Y' = C (some _)
+    rw [Node.set_append (hr.get _), hr.set,
+      Node.set_msg_single _ _ _ Y _ (by rw [List.getElem?_set_self hlt]; rfl), List.set_set]
+    rfl
+  walk := by
+    obtain ⟨sc', hwalk, hfind⟩ := hr.walk
+    refine ⟨Scope.newChild (cfOf s' spec' (a ++ (b ++ [i]))), ?_, fun _ _ => rfl⟩
+    intro o'
+    rw [List.map_append]
+    have hw := hwalk (some (.msg tp (vsp.set i (o'.getD (freshMsg s')))))
+    refine walkScope_append_exact hw (walkScope_cons ?_ (walkScope_nil _ _ _))
+    have hps := (propSetValue_cached (c := a ++ b) (vs := vsp.set i (o'.getD (freshMsg s'))) hpi ht).lift
+      (hr.get _)
+    rw [hr.set] at hps
+    have hc := childBlock_of_walkPath (n := n) (sc := sc') (by rw [hfind _ hn]; exact hfb)
+      (walkPath_container (propInfo_hasProperty hpi) hps (walkRest_nil _ _ _))
+      (setSpecs_cons (hspec _) (setSpecs_nil _))
+    rw [List.append_assoc] at hc
+    exact hc
+
+/-- one rule line `pfx.NAME = LIT` (`pfx` ends in `rules`), the rules message holding `vals` -/
+theorem BodyReach.ruleLine {sR : Schema} {specR : BlockSpec} (hR : RulesSchemaOK sR specR)
+    (hr : BodyReach sc pfx sR specR a b C (fun _ => True)) (o : Option Node) {vals : List (Str × Node)}
+    (hM : o.getD (freshMsg sR) = mkMsgS sR vals) {r : J5V.Compile.Rule}
+    (hok : ruleOk sR r = true) (hstr : strOk r.lit = true) (hnew : lookupVal r.name vals = none) :
+    Exact (doStatement j5Env sc (assignStmt (pfx ++ [r.name]) (litValue r.lit))) a (C o) ()
+      (C (some (mkMsgS sR (vals ++ [ruleVal sR r])))) := by
+  obtain ⟨sc', hwalk, hfind⟩ := hr.walk
+  have hident : isIdent r.name = true := by
+    simp only [ruleOk, Bool.and_eq_true] at hok; exact hok.1
+  have hw := hwalk o
+  rw [hM] at hw
+  have h := ruleLine_exact hR (combinePath_refOf_concat hr.ascii (isAscii_of_isIdent hident)) hw
+    (fun n => hfind n trivial) (hr.get _) hok hstr hnew
+  rw [hr.set] at h
+  exact h
+
+/-- the rule lines, with the accumulator `vals0` -/
+theorem BodyReach.rulesFold {sR : Schema} {specR : BlockSpec} (hR : RulesSchemaOK sR specR)
+    {pfx0 : List Str} (hr : BodyReach sc (pfx0 ++ [wRules]) sR specR a b C (fun _ => True))
+    (rules : J5V.Compile.Rules)
+    (hok : rules.all (fun r => ruleOk sR r && strOk r.lit) = true)
+    (hdist : distinct (rules.map (·.name)) = true)
+    (o : Option Node) (vals0 : List (Str × Node)) (hM : o.getD (freshMsg sR) = mkMsgS sR vals0)
+    (hfresh : ∀ r ∈ rules, lookupVal r.name vals0 = none) :
+    Exact (doBody j5Env sc (rulesBcl pfx0 rules)) a (C o) ()
+      (C (if rules.isEmpty then o else some (mkMsgS sR (vals0 ++ rules.map (ruleVal sR))))) := by
+  induction rules generalizing o vals0 with
+  | nil => exact doBody_nil _ _ _
+  | cons r rest ih =>
+    simp only [List.all_cons, Bool.and_eq_true] at hok
+    obtain ⟨⟨hrok, hrstr⟩, hrest⟩ := hok
+    simp only [List.map_cons, distinct, Bool.and_eq_true, Bool.not_eq_true', List.contains_eq_mem,
+      decide_eq_false_iff_not] at hdist
+    have h1 := hr.ruleLine hR o hM hrok hrstr (hfresh r (by simp))
+    have hkey : pfx0 ++ [wRules] ++ [r.name] = pfx0 ++ [wRules, r.name] := by simp
+    rw [hkey] at h1
+    have h2 := ih hrest hdist.2 (some (mkMsgS sR (vals0 ++ [ruleVal sR r]))) (vals0 ++ [ruleVal sR r]) rfl (by
+      intro r' hr'
+      rw [lookupVal_append_pair_ne _ _ _ (ruleVal_fst sR r)]
+      · exact hfresh r' (List.mem_cons_of_mem _ hr')
+      · intro e
+        exact hdist.1 (by rw [← e]; exact List.mem_map_of_mem hr'))
+    simp only [rulesBcl, List.map_cons, List.isEmpty_cons, Bool.false_eq_true, if_false]
+    refine doBody_cons h1 (h2.conv ?_)
+    cases rest with
+    | nil => simp
+    | cons r2 rest2 => simp
+
+/-- the lines `pfx.rules.NAME = LIT` of a block whose current message `.msg t vs` has the `rules` slot `ri`
 untouched -/
-theorem BodyReach.rules (hr : BodyReach sc pfx (cfOf sT specT (a ++ b)) a b C names) (hn : wRules ∈ names)
+theorem BodyReach.rules (hr : BodyReach sc pfx s spec a b C P) (hn : P wRules)
     {sR : Schema} {specR : BlockSpec} (hR : RulesSchemaOK sR specR)
-    (hfb : findBlock wRules [cfOf sT specT (a ++ b)] = some (cfOf sT specT (a ++ b), [wRules]))
-    {ri : Nat} (hpi : propInfo j5Env sT wRules = some (ri, none, .container sR))
+    (hfb : findBlock wRules [cfOf s spec (a ++ b)] = some (cfOf s spec (a ++ b), [wRules]))
+    {ri : Nat} (hpi : propInfo j5Env s wRules = some (ri, none, .container sR))
     (hspec : ∀ c, specOf j5Env ⟨c, .msg sR⟩ = .ok specR)
     {t : List Bool} {vs : List Node} (ht : t[ri]? = some false) (hv : vs[ri]? = some .absent)
     (rules : J5V.Compile.Rules)
     (hok : rules.all (fun r => ruleOk sR r && strOk r.lit) = true)
     (hdist : distinct (rules.map (·.name)) = true) :
-    Exact (doBody j5Env sc (rulesBcl pfx rules)) a (C (.msg t vs)) ()
-      (C (.msg (t.set ri (!rules.isEmpty)) (vs.set ri (contSlot sR (rules.map (ruleVal sR)))))) := by
-  obtain ⟨sc', hwalk, hfind⟩ := hr.first
-  have hlt : ri < t.length := (List.getElem?_eq_some_iff.mp ht).1
-  have hlv : ri < vs.length := (List.getElem?_eq_some_iff.mp hv).1
-  let St : List (Str × Node) → Node := fun vals =>
-    C (.msg (t.set ri (!vals.isEmpty)) (vs.set ri (contSlot sR vals)))
-  let St1 : List (Str × Node) → Node := fun vals => C (.msg (t.set ri true) (vs.set ri (mkMsgS sR vals)))
-  have h := rulesBody_exact hR (sc := sc) (pfx := pfx) (a := a) (b := b ++ [ri]) (St := St) (St1 := St1)
-    hr.ascii ?_ ?_ ?_ rules hok hdist [] (fun _ _ => rfl)
-  · have e0 : St [] = C (.msg t vs) := by
-      show C (Node.msg (t.set ri (![].isEmpty)) (vs.set ri (contSlot sR []))) = _
-      rw [list_set_self (show t[ri]? = some (!([] : List (Str × Node)).isEmpty) from ht),
-        list_set_self (show vs[ri]? = some (contSlot sR []) from hv)]
-    rw [e0, List.nil_append] at h
-    have e1 : (rules.map (ruleVal sR)).isEmpty = rules.isEmpty := by cases rules <;> rfl
-    rw [← e1]
-    exact h
-  · intro vals
-    rw [List.map_append]
-    refine walkScope_append_exact (hwalk _) (walkScope_cons ?_ (walkScope_nil _ _ _))
-    have hps := (propSetValue_contSlot (c := a ++ b) (t := t.set ri (!vals.isEmpty))
-      (vs := vs.set ri (contSlot sR vals)) (vals := vals) hpi (by rw [List.getElem?_set_self hlt])
-      (by rw [List.getElem?_set_self hlv])).lift (hr.get _)
-    rw [List.set_set, List.set_set, hr.set] at hps
-    have hc := childBlock_of_walkPath (n := wRules) (sc := sc') (by rw [hfind _ hn]; exact hfb)
-      (walkPath_container (propInfo_hasProperty hpi) hps (walkRest_nil _ _ _))
-      (setSpecs_cons (hspec _) (setSpecs_nil _))
-    rw [List.append_assoc] at hc
-    exact hc
-  · intro vals
-    show (C _).get? (b ++ [ri]) = _
-    rw [Node.get?_append, hr.get, Option.bind_some]
-    exact Node.get?_msg_single _ _ _ _ (by rw [List.getElem?_set_self hlv])
-  · intro vals kv
-    show (C (Node.msg (t.set ri true) (vs.set ri (mkMsgS sR vals)))).set (b ++ [ri]) _ = _
-    rw [Node.set_append (hr.get _), hr.set,
-      Node.set_msg_single _ _ _ (mkMsgS sR vals) _ (by rw [List.getElem?_set_self hlv]), List.set_set]
-    show _ = C (Node.msg (t.set ri (!(vals ++ [kv]).isEmpty)) (vs.set ri (contSlot sR (vals ++ [kv]))))
-    have : (vals ++ [kv]).isEmpty = false := by simp
-    rw [this]
-    simp only [contSlot, this, Bool.not_false, Bool.false_eq_true, if_false]
-
-/-- the walk `pfx.n` into a container property of the type block that exists already (cached wrapper) -/
-theorem BodyReach.walk_cached (hr : BodyReach sc pfx (cfOf sT specT (a ++ b)) a b C names) {n pn : Str}
-    (hn : n ∈ names)
-    (hfb : findBlock n [cfOf sT specT (a ++ b)] = some (cfOf sT specT (a ++ b), [pn]))
-    {i : Nat} {og : Option (Str × List Nat)} {s' : Schema} {spec' : BlockSpec}
-    (hpi : propInfo j5Env sT pn = some (i, og, .container s'))
-    (hspec : ∀ c, specOf j5Env ⟨c, .msg s'⟩ = .ok spec')
-    {t : List Bool} {vs : List Node} (ht : t[i]? = some true) :
-    Exact (walkScope j5Env sc ((pfx ++ [n]).map pathElem)) a (C (.msg t vs))
-      (Scope.newChild (cfOf s' spec' (a ++ b ++ [i]))) (C (.msg t vs)) := by
-  obtain ⟨sc', hwalk, hfind⟩ := hr.first
-  rw [List.map_append]
-  refine walkScope_append_exact (hwalk _) (walkScope_cons ?_ (walkScope_nil _ _ _))
-  have hps := (propSetValue_cached (c := a ++ b) (vs := vs) hpi ht).lift (hr.get _)
-  rw [hr.set] at hps
-  exact childBlock_of_walkPath (n := n) (sc := sc') (by rw [hfind _ hn]; exact hfb)
-    (walkPath_container (propInfo_hasProperty hpi) hps (walkRest_nil _ _ _))
-    (setSpecs_cons (hspec _) (setSpecs_nil _))
-
-/-- the walk `pfx.n` into a container property of the type block that is created by it -/
-theorem BodyReach.walk_build (hr : BodyReach sc pfx (cfOf sT specT (a ++ b)) a b C names) {n pn : Str}
-    (hn : n ∈ names)
-    (hfb : findBlock n [cfOf sT specT (a ++ b)] = some (cfOf sT specT (a ++ b), [pn]))
-    {i : Nat} {og : Option (Str × List Nat)} {s' : Schema} {spec' : BlockSpec}
-    (hpi : propInfo j5Env sT pn = some (i, og, .container s'))
-    (hspec : ∀ c, specOf j5Env ⟨c, .msg s'⟩ = .ok spec')
-    {t : List Bool} {vs : List Node} {cur : Node} (ht : t[i]? = some false) (hv : vs[i]? = some cur)
-    (hconf : NoConflict og vs) :
-    Exact (walkScope j5Env sc ((pfx ++ [n]).map pathElem)) a (C (.msg t vs))
-      (Scope.newChild (cfOf s' spec' (a ++ b ++ [i])))
-      (C (.msg (t.set i true) (vs.set i (builtValue (.container s') cur)))) := by
-  obtain ⟨sc', hwalk, hfind⟩ := hr.first
-  rw [List.map_append]
-  refine walkScope_append_exact (hwalk _) (walkScope_cons ?_ (walkScope_nil _ _ _))
-  have hps := (propSetValue_build (c := a ++ b) false hpi ht hv hconf).lift (hr.get _)
-  rw [hr.set] at hps
-  exact childBlock_of_walkPath (n := n) (sc := sc') (by rw [hfind _ hn]; exact hfb)
-    (walkPath_container (propInfo_hasProperty hpi) hps (walkRest_nil _ _ _))
-    (setSpecs_cons (hspec _) (setSpecs_nil _))
-
-/-- reach extended by one name: the lines `pfx.n.…` reach the container in slot `i` of the type message
-(touched already: every line takes the cached wrapper), whatever that container holds -/
-theorem BodyReach.extend_cached (hr : BodyReach sc pfx (cfOf sT specT (a ++ b)) a b C names) {n pn : Str}
-    (hn : n ∈ names) (hna : isAscii n = true)
-    (hfb : findBlock n [cfOf sT specT (a ++ b)] = some (cfOf sT specT (a ++ b), [pn]))
-    {i : Nat} {og : Option (Str × List Nat)} {s' : Schema} {spec' : BlockSpec}
-    (hpi : propInfo j5Env sT pn = some (i, og, .container s'))
-    (hspec : ∀ c, specOf j5Env ⟨c, .msg s'⟩ = .ok spec')
-    {t : List Bool} {vs : List Node} (ht : t[i]? = some true) (hlt : i < vs.length) (names' : List Str) :
-    BodyReach sc (pfx ++ [n]) (cfOf s' spec' (a ++ (b ++ [i]))) a (b ++ [i])
-      (fun Y => C (.msg t (vs.set i Y))) names' where
-  get := fun Y => by
-    rw [Node.get?_append, hr.get, Option.bind_some]
-    exact Node.get?_msg_single _ _ _ _ (by rw [List.getElem?_set_self hlt])
-  set := fun Y Y' => by
-    rw [Node.set_append (hr.get _), hr.set,
-      Node.set_msg_single _ _ _ Y _ (by rw [List.getElem?_set_self hlt]), List.set_set]
-  ascii := by
-    intro s hs
-    simp only [List.mem_append, List.mem_singleton] at hs
-    rcases hs with hs | rfl
-    · exact hr.ascii s hs
-    · exact hna
-  first := ⟨Scope.newChild (cfOf s' spec' (a ++ (b ++ [i]))), fun Y => by
-    have h := hr.walk_cached (vs := vs.set i Y) hn hfb hpi hspec ht
-    rw [List.append_assoc] at h
-    exact h, fun _ _ => rfl⟩
+    Exact (doBody j5Env sc (rulesBcl pfx rules)) a (C (some (.msg t vs))) ()
+      (C (some (.msg (t.set ri (!rules.isEmpty)) (vs.set ri (contSlot sR (rules.map (ruleVal sR))))))) := by
+  have hrR := hr.child (some (.msg t vs)) rfl hn (by decide) hfb hpi hspec ht hv (fun g hg => by cases hg)
+  have h := hrR.rulesFold hR rules hok hdist none [] (freshMsg_eq_mkMsgS sR) (fun _ _ => rfl)
+  refine h.conv ?_
+  cases rules with
+  | nil =>
+    show C (some (.msg t vs)) = _
+    rw [list_set_self (show t[ri]? = some (!([] : J5V.Compile.Rules).isEmpty) from ht),
+      list_set_self (show vs[ri]? = some (contSlot sR (([] : J5V.Compile.Rules).map (ruleVal sR))) from hv)]
+  | cons r rest => rfl
 
 end
 
